@@ -111,6 +111,7 @@ theorem apply_classify {s s' : St} {o : Op} {id : Nat} {r r' : Rollapp} (h : Rol
     · rw [hps'] at h1; injection h1 with h1
       right; right; left
       exact ⟨h1, Or.inr ⟨au, vs, rfl⟩⟩
+  | punish au a' rw => exact contra ((punish_frame h.core.uniq (punishProposal_ok e).2).psame id)
   | begin_ dt => simp only [apply] at e; injection e with e; subst e; exact contra (beginBlock_psame s dt id)
   | end_ f => simp only [apply] at e; injection e with e; subst e; exact contra ((endBlock_frame h.core.uniq).psame id)
 
